@@ -3292,10 +3292,6 @@ func (o *Operand) Decode(decoder *Decoder) error {
 	}
 	o.GasLimit = Gas(gasLimit)
 
-	if err = o.GasLimit.Decode(decoder); err != nil {
-		return err
-	}
-
 	if err = o.Result.Decode(decoder); err != nil {
 		return err
 	}
@@ -3317,18 +3313,20 @@ func (o *OperandOrDeferredTransfer) Decode(decoder *Decoder) error {
 	isDeferredTransfer := firstByte == 1
 	if isOperand {
 		cLog(Cyan, "OperandOrDeferredTransfer is Operand")
+		o.Operand, o.DeferredTransfer = new(Operand), nil
 		if err = o.Operand.Decode(decoder); err != nil {
 			return err
 		}
 		return nil
 	} else if isDeferredTransfer {
 		cLog(Cyan, "OperandOrDeferredTransfer is DeferredTransfer")
+		o.Operand, o.DeferredTransfer = nil, new(DeferredTransfer)
 		if err = o.DeferredTransfer.Decode(decoder); err != nil {
 			return err
 		}
 		return nil
 	}
-	return nil
+	return fmt.Errorf("invalid OperandOrDeferredTransfer discriminator %d", firstByte)
 }
 
 func (e *ExtrinsicData) Decode(d *Decoder) error {
